@@ -92,8 +92,34 @@ def bytes_event(tid, p, ss=None):
     return {"tid": tid, "ev": "bytes", "sx": p["sx"], "sy": p["sy"], "num": p["num"], "den": p["den"], "b": b}
 
 
+def geombig_event(tid, p, ss=None):
+    """One axis with an extent of 50..100 bits (exact integer arithmetic is the only thing that survives here)."""
+    if ss is None:
+        from vc2_conformance.pseudocode import slice_sizes as ss
+    d, dho, n, ns = p["d"], p["dho"], p["n"], p["ns"]
+    x = p["axis"] == "x"
+    st = make_state({"lw": n if x else 8, "lh": 8 if x else n, "cw": 8, "ch": 8, "d": d, "dho": dho, "sx": ns if x else 1, "sy": 1 if x else ns})
+    f = ss.subband_width if x else ss.subband_height
+    K = d + dho if x else d
+    top = d + dho
+    P = f(st, top + 1, "Y")
+    lv = []
+    for level in range(0, top + 1):
+        # (13.2.3) level 0 and level 1 share the coarsest scale; horizontal-only levels do not halve the height
+        if x:
+            shift = K if level == 0 else K - level + 1
+        else:
+            shift = d if level <= dho else d - (level - dho) + 1
+        lv.append([shift, trace.limbs(f(st, level, "Y"))])
+    lo = [trace.limbs((ss.slice_left if x else ss.slice_top)(st, i, "Y", 0)) for i in range(ns)]
+    hi = [trace.limbs((ss.slice_right if x else ss.slice_bottom)(st, i, "Y", 0)) for i in range(ns)]
+    return {"tid": tid, "ev": "geombig", "axis": p["axis"], "n": trace.limbs(n), "K": K, "P": trace.limbs(P), "lv": lv, "lo": lo, "hi": hi, "d": d, "dho": dho}
+
+
 def _record(job):
     tid, kind, p = job
+    if kind == "geombig":
+        return geombig_event(tid, p)
     return geom_event(tid, p) if kind == "geom" else bytes_event(tid, p)
 
 
@@ -366,6 +392,16 @@ def run(ctx):
         tid += 1
         jobs.append((tid, "bytes", p))
         origin[tid] = "random"
+    nbig = ctx.pick(120, 1200)
+    for i in range(nbig):
+        bits = rnd.choice([31, 40, 52, 53, 54, 60, 63, 64, 65, 80, 100])
+        d, dho = rnd.randint(0, 4), rnd.randint(0, 3)
+        n = rnd.getrandbits(bits) | (1 << (bits - 1))
+        if rnd.random() < 0.3:
+            n = ((n >> (d + dho)) << (d + dho)) + rnd.choice([0, 1, (1 << (d + dho)) - 1]) or 1
+        tid += 1
+        jobs.append((tid, "geombig", {"axis": rnd.choice("xy"), "n": n, "d": d, "dho": dho, "ns": rnd.randint(1, 5)}))
+        origin[tid] = "random-big-extent"
     records = common.pmap(_record, jobs)
 
     # spec -> code comparison on the TLC-chosen cases (R1: logged, not an alarm)
@@ -409,6 +445,9 @@ def run(ctx):
             p = j[2]
             if p["d"] + p["dho"] > 0 and (p["sx"] > 1 or p["sy"] > 1):
                 nontrivial.add(repr(sorted(p.items())))
+        elif j[1] == "geombig":
+            if j[2]["d"] + j[2]["dho"] > 0:
+                nontrivial.add(repr(sorted(j[2].items())))
         elif (j[2]["num"] * j[2]["sx"] * j[2]["sy"]) % j[2]["den"] != 0 and j[2]["sx"] * j[2]["sy"] > 1:
             nontrivial.add(repr(sorted(j[2].items())))
     outnumber = sum(1 for j, ev in zip(jobs, records) if j[1] == "geom" and (j[2]["sx"] > ev["comps"][0]["sw"][0] or j[2]["sy"] > ev["comps"][0]["sh"][0]))
@@ -431,6 +470,7 @@ def run(ctx):
             "random_geometry_cases": len(geo),
             "random_slice_bytes_cases": len(byt),
             "bytesbig_cases": sum(1 for ev in records if ev["ev"] == "bytesbig"),
+            "big_extent_cases_31_to_100_bits": sum(1 for ev in records if ev["ev"] == "geombig"),
             "cases_with_slices_outnumbering_dc_coefficients": outnumber,
             "cases_with_flag_true": flags,
             "spec_disagreements": dis + tdis,
